@@ -64,7 +64,7 @@ RESP = {
     (0x35, None): (["K B Isym"], 3, None),
     (0x36, None): (["K B R*"], 2, None),
     (0x37, None): (["K R*"], 1, None),
-    (0x19, 0x06): (["K S I3 B B R*"], 6, None),
+    (0x19, 0x06): (["K S I3 B", "K S I3 B B R*"], 6, None),
     (0x7F, None): (["K B B"], 3, 3),
 }
 for _sf in (0x01, 0x07, 0x11, 0x12):
